@@ -54,6 +54,7 @@ func NewClient() *Client {
 	return &Client{
 		Auth:                Auth{Name: "Steve"},
 		Registries:          registry.NewNetworkCodec(),
+		Cookies:             make(map[string][]byte),
 		Events:              Events{handlers: make([][]PacketHandler, packetid.ClientboundPacketIDGuard)},
 		LoginPlugin:         make(map[string]CustomPayloadHandler),
 		ConfigHandler:       NewDefaultConfigHandler(),
